@@ -202,7 +202,7 @@ def _catalogue(w, rng, focus):
         osb = [1, 3][int(rng.integers(0, 2))]
         op('detector.collect_charge_bayer', {'img': cu, 'wave': wv, 'qe_red': q, 'qe_green': q, 'qe_blue': q},
            lambda: D.collect_charge_bayer(C[cu], C[wv], C[q], 0.5, C[q], 'RGGB' if osb == 3 else 'RGB' * 3, oversample=osb), reskind='res')
-        nn = w.pick(rng, 'img', lambda x, i: x.min() >= 0)
+        nn = w.pick(rng, 'img', lambda x, i: x.min() >= 0 and not np.any(np.signbit(x)))   # -0.0 makes normal(scale=sqrt(-0.0)) raise
         sd = int(rng.integers(0, 5))
         if nn is not None:
             op('detector.shot_noise', {'img': nn}, lambda: D.shot_noise(C[nn], seed=sd), reskind='res', weight=2)
